@@ -222,6 +222,32 @@ fn mirror(d: &Diff) -> Diff {
 }
 
 /// apply one edit; returns false if the edit was not applicable
+/// a different name: suffix, changed ASCII case only, trailing blank, or a replaced first character
+fn renamed(name: &str, id: u32, rng: &mut Rng) -> String {
+    if name.len() > 200 {
+        return format!("renamed {id}");
+    }
+    let flipped: String = name.chars().map(|c| if c.is_ascii_lowercase() { c.to_ascii_uppercase() } else if c.is_ascii_uppercase() { c.to_ascii_lowercase() } else { c }).collect();
+    let cand = match rng.below(5) {
+        0 => flipped,
+        1 => name.to_ascii_uppercase(),
+        2 => format!("{name} "),
+        3 => {
+            let mut cs: Vec<char> = name.chars().collect();
+            if let Some(c) = cs.first_mut() {
+                *c = if *c == 'Z' { 'Y' } else { 'Z' };
+            }
+            cs.into_iter().collect()
+        }
+        _ => format!("{name} (renamed)"),
+    };
+    if cand == name {
+        format!("{name}x")
+    } else {
+        cand
+    }
+}
+
 fn apply_edit(f: &mut FactSet, edit: &str, rng: &mut Rng) -> bool {
     let protected = |id: u32| id == 1 || id == 118;
     let ids: Vec<u32> = f.terms.iter().map(|t| t.id).collect();
@@ -229,11 +255,7 @@ fn apply_edit(f: &mut FactSet, edit: &str, rng: &mut Rng) -> bool {
     match edit {
         "rename_term" => {
             let i = rng.usize_below(f.terms.len());
-            if f.terms[i].name.len() > 200 {
-                f.terms[i].name = format!("renamed {}", f.terms[i].id);
-            } else {
-                f.terms[i].name.push_str(" (renamed)");
-            }
+            f.terms[i].name = renamed(&f.terms[i].name, f.terms[i].id, rng);
             true
         }
         "add_parent" => {
@@ -305,11 +327,7 @@ fn apply_edit(f: &mut FactSet, edit: &str, rng: &mut Rng) -> bool {
                 return false;
             }
             let i = rng.usize_below(f.recs[k].len());
-            if f.recs[k][i].name.len() > 200 {
-                f.recs[k][i].name = format!("renamed {}", f.recs[k][i].id);
-            } else {
-                f.recs[k][i].name.push('x');
-            }
+            f.recs[k][i].name = renamed(&f.recs[k][i].name, f.recs[k][i].id, rng);
             true
         }
         "add_record_with_existing_name" => {
